@@ -618,6 +618,12 @@ Proof.
     split; [exact H2|]. apply no_hdr_app; [apply (no_hdr_app [_]); [reflexivity|exact E1]|exact E2].
 Qed.
 
+(* nothing is routed after the close: once Socket::close() has run, no later segment, acknowledgement, peer event or
+   application call makes the socket announce a request (the server routes from that announcement) *)
+Theorem no_headers_after_close e p s ops k :
+  no_hdr (snd (run_ops_from e p k (fst (do_close s)) ops)).
+Proof. apply run_ops_from_parsed. apply do_close_parsed. Qed.
+
 (* a step taken while the head is still awaited emits headersParsed at most once, and if it
    does, the head counts as parsed afterwards *)
 Lemma read_headers_once e p s :
